@@ -336,7 +336,7 @@ class RuntimeContext:
         self,
         context: "RuntimeContext" = None,
         cls=None,
-        route: Union[str, int] = None,
+        route: Union[str, int] = unprovided,
         force_error: bool = False,
         error_hooks: dict = None,
         options: Options = None,
@@ -345,12 +345,13 @@ class RuntimeContext:
         self.context = context
         self.depth = context.depth if context else 0
 
-        self.route = route
+        self.route = None if unprovided(route) else route
         self.routes = []
         if self.context:
             self.routes = list(self.context.routes)
 
-        if route:
+        if not unprovided(route):
+            # entering an item / key / field of the current level: index 0 and key '' are routes too
             self.routes.append(route)
         else:
             self.depth += 1
